@@ -5,6 +5,14 @@ import (
 	"fmt"
 )
 
+// maxBlockDepth bounds how deeply block executions may nest during one execution. Block
+// definitions of different templates of an inheritance chain can contain each other
+// (a's parent definition contains b, b's override contains a, whose override calls
+// block.Super); without a bound that recursion exhausts the stack.
+const maxBlockDepth = 1000
+
+type blockDepthKey struct{}
+
 type tagBlockNode struct {
 	name string
 }
@@ -37,6 +45,13 @@ func (node *tagBlockNode) Execute(ctx *ExecutionContext, writer TemplateWriter) 
 	if lenBlockWrappers == 0 {
 		return ctx.Error("internal error: len(block_wrappers) == 0 in tagBlockNode.Execute()", nil)
 	}
+
+	depth, _ := ctx.tagState[blockDepthKey{}].(int)
+	if depth >= maxBlockDepth {
+		return ctx.Error(fmt.Sprintf("maximum block nesting depth reached (max is %v); block '%s' (indirectly) contains itself", maxBlockDepth, node.name), nil)
+	}
+	ctx.tagState[blockDepthKey{}] = depth + 1
+	defer func() { ctx.tagState[blockDepthKey{}] = depth }()
 
 	blockWrapper := blockWrappers[lenBlockWrappers-1]
 	// "block" describes the block being rendered; when this block is nested in another
